@@ -3,4 +3,4 @@ Require Import ExtrOcamlBasic.
 From LedgerV Require Import Base.Prelude Base.ExtractHelpers Base.Calendar Model.Dates.
 Extraction "model_C14.ml" h_add h_mul h_div h_mod h_opp h_ltb h_eqb h_qred h_qmake h_qnum h_qden
   parse_date boost_from_day_number boost_day_number format_date format_written date_ltb date_eqb
-  days_from_civil weekday.
+  days_from_civil weekday run_events.
